@@ -73,7 +73,9 @@ def check_even(ctx, lead, k, payload, sub):
         ref = make(ctx, lead, k, 'REF')
         o = T.outcome(ref, 0)
         if o[0] != 'ok':
-            raise H.HarnessError('reference context does not parse: %r' % ref)
+            # the reference variant is a well-formed document with a harmless comment: it must parse
+            raise H.Violation('C10:reference-context-breaks:%s' % o[1], dict(case, src=ref, payload='REF'),
+                              'the context with the harmless comment %%REF does not parse: %r' % ref)
         _REF_CACHE[key] = O.canon_tree(o[1])
     o = T.outcome(src, 0)
     if o[0] != 'ok':
